@@ -80,7 +80,7 @@ def mkop(ops, kind, rng, **kw):
     if kind == "listoffsets1":
         return ops.op("listoffsets", parts=[{"t": t, "p": p, "k": rng.randrange(6)}], **kw)
     if kind == "listoffsets":
-        n = rng.randint(2, 4)
+        n = rng.randint(2, 3)
         allp = [("t1", 0), ("t1", 1), ("t2", 0), ("t2", 1)]
         rng.shuffle(allp)
         return ops.op("listoffsets", parts=[{"t": a, "p": b, "k": rng.randrange(6)} for a, b in sorted(allp[:n])], **kw)
@@ -202,11 +202,11 @@ def c12_scripts(seed, tier):
     # 5. seeded random histories
     n = 30 if tier == "quick" else 400
     for k in range(n):
-        out.append(random_script(rng, "rand-%d-%d" % (seed, k), allkinds))
+        out.append(random_script(rng, "rand-%d-%d" % (seed, k), allkinds, wide=(tier == "thorough")))
     return out
 
 
-def random_script(rng, sid, kinds, faults=False):
+def random_script(rng, sid, kinds, wide=False):
     ops = Ops()
     nb = rng.choice([2, 3, 3])
     brokers = list(range(1, nb + 1))
@@ -225,7 +225,7 @@ def random_script(rng, sid, kinds, faults=False):
         if r < 0.55:
             st.append({"op": mkop(ops, rng.choice(kinds), rng)})
         elif r < 0.75:
-            groups = [[mkop(ops, rng.choice(kinds), rng) for _ in range(rng.randint(1, 3))] for _ in range(rng.randint(2, 3))]
+            groups = [[mkop(ops, rng.choice(kinds), rng) for _ in range(rng.randint(1, 3 if wide else 2))] for _ in range(rng.randint(2, 3 if wide else 2))]
             st.append({"par": groups})
         elif r < 0.9:
             m = rng.random()
@@ -334,84 +334,152 @@ def detail_of(out, inv):
     return ("api=%s" % a.group(1)) if a else (("kind=%s" % k.group(1)) if k else "")
 
 
-def monitor(ctx, scripts, traces, invs, maxviol=40):
+def verdicts_of(out):
+    """the VERDICT lines printed by TransportMon.tla at the end of every journal"""
+    res = {}
+    for m in re.finditer(r'^"VERDICT (.*)"\s*$', out, re.M):
+        txt = m.group(1).replace('\\"', '"').replace("\\\\", "\\")
+        try:
+            v = json.loads(txt)
+        except ValueError:
+            continue
+        res[v["tid"]] = v["bad"]
+    return res
+
+
+def monitor(ctx, scripts, traces, invs, maxviol=60):
+    """TLC evaluates the invariants of TransportMon.tla on the concatenated journals. When one fails, a second
+    run without the invariants lets the module print its findings for every journal, so that every violation is
+    reported (and known findings cannot mask others)."""
     d = ctx.specdir(ENGINE)
     cfg = "TransportMon_%s.cfg" % ctx.prop
     with open(os.path.join(d, cfg), "w") as f:
         f.write("SPECIFICATION Spec\nINVARIANTS " + " ".join(invs) + "\nPOSTCONDITION TraceAccepted\nCHECK_DEADLOCK FALSE\n")
+    with open(os.path.join(d, "TransportMon_all.cfg"), "w") as f:
+        f.write("SPECIFICATION Spec\nPOSTCONDITION TraceAccepted\nCHECK_DEADLOCK FALSE\n")
     byid = {s["id"]: s for s in scripts}
-    remaining = list(traces)
-    checked = nviol = 0
-    while remaining:
-        tf = os.path.join(ctx.work, "tmon-in.ndjson")
-        write_ndjson(tf, [e for t in remaining for e in t])
-        r = ctx.tlc(ENGINE, "TransportMon", cfg, workers=1, timeout=1800, env={"TRACE": tf})
-        if r["violated"]:
-            tid = tid_of(r["out"])
-            idx = next((i for i, t in enumerate(remaining) if t[0].get("id") == tid), None)
-            if idx is None:
-                raise Inconclusive("monitor reported %s but the trace could not be identified" % r["violated"])
-            bad = remaining[idx]
-            checked += idx + 1
-            det = detail_of(r["out"], r["violated"])
-            rep = ctx.save_replay("%s-%s" % (tid, r["violated"]), [
-                ("script.json", json.dumps(byid.get(tid, {}))),
-                ("trace.ndjson", "\n".join(json.dumps(e) for e in bad) + "\n"),
-                ("tlc.txt", r["out"][-20000:])])
-            ctx.violation("%s violated on a journal of the real Transport (scenario %s) %s: %s" % (r["violated"], tid, det, bad_of(r["out"], r["violated"])[:600]),
-                          rep, key="%s %s scenario=%s" % (r["violated"], det, tid))
-            nviol += 1
-            # the same trace may violate further invariants: monitor it again without the one reported
-            remaining = remaining[idx + 1:]
-            if nviol >= maxviol:
-                ctx.notes.append("stopped after %d violations; %d traces not monitored" % (nviol, len(remaining)))
-                break
-            continue
+    tf = os.path.join(ctx.work, "tmon-in-%s.ndjson" % ctx.prop)
+    write_ndjson(tf, [e for t in traces for e in t])
+    r = ctx.tlc(ENGINE, "TransportMon", cfg, workers=1, timeout=1800, env={"TRACE": tf}, tag="mon-" + ctx.prop)
+    if not r["violated"]:
         if r["postcondition_failed"] or r["error"] or r["timeout"]:
             raise Inconclusive("monitor run failed: " + (r["error"] or r["out"][-1500:]))
-        checked += len(remaining)
-        remaining = []
-    return checked
+        return len(traces)
+    r2 = ctx.tlc(ENGINE, "TransportMon", "TransportMon_all.cfg", workers=1, timeout=1800, env={"TRACE": tf}, tag="monall-" + ctx.prop)
+    if r2["postcondition_failed"] or r2["error"] or r2["timeout"] or r2["violated"]:
+        raise Inconclusive("monitor (verdict run) failed: " + (r2["error"] or r2["out"][-1500:]))
+    vd = verdicts_of(r2["out"])
+    fields = {FIELD_OF[i]: i for i in invs}
+    if "late" in fields:
+        fields["hang"] = fields.get("hang", "C09t_CancelPrompt")
+    nviol = 0
+    for t in traces:
+        tid = t[0].get("id")
+        bad = vd.get(tid)
+        if bad is None:
+            if t[0].get("died"):
+                continue
+            raise Inconclusive("no verdict for journal %s" % tid)
+        for fld, inv in sorted(fields.items()):
+            recs = bad.get(fld) or []
+            seen = set()
+            for rec in recs:
+                det = ("api=%s" % rec["api"]) if "api" in rec else (("kind=%s" % rec["kind"]) if "kind" in rec else "")
+                if det in seen:
+                    continue
+                seen.add(det)
+                nviol += 1
+                if nviol > maxviol:
+                    continue
+                rep = ctx.save_replay("%s-%s" % (tid, inv), [
+                    ("script.json", json.dumps(byid.get(tid, {}))),
+                    ("trace.ndjson", "\n".join(json.dumps(e) for e in t) + "\n"),
+                    ("finding.json", json.dumps({"invariant": inv, "records": recs}))])
+                ctx.violation("%s violated on a journal of the real Transport (scenario %s) %s: %s" % (inv, tid, det, json.dumps(rec)[:500]),
+                              rep, key="%s %s scenario=%s" % (inv, det, tid))
+    if nviol == 0:
+        raise Inconclusive("TLC reported %s but no finding was printed" % r["violated"])
+    if nviol > maxviol:
+        ctx.notes.append("%d violations found, the first %d reported" % (nviol, maxviol))
+    return len(traces)
 
 
-def conformance(ctx, traces):
-    divs = []
-    remaining = list(traces)
-    accepted = 0
-    states = 0
-    while remaining and len(divs) < 30:
-        tf = os.path.join(ctx.work, "tconf-in.ndjson")
-        write_ndjson(tf, [e for t in remaining for e in t])
-        r = ctx.tlc(ENGINE, "TransportTrace", "TransportTrace.cfg", workers=1, timeout=1800, env={"TRACE": tf})
-        states += r["distinct"]
-        if r["postcondition_failed"] or r["violated"]:
-            m = re.search(r'"DIVERGED_AT_LINE",\s*(\d+)', r["out"])
-            line = int(m.group(1)) if m else (r["depth"] or 1)
-            n = 0
-            for k, t in enumerate(remaining):
-                if line <= n + len(t):
-                    ev = t[line - n - 1] if 0 < line - n <= len(t) else {}
-                    ev = {a: b for a, b in ev.items() if a not in ("vtab", "crange", "ops")}
-                    divs.append({"trace": t[0].get("id"), "line": line - n, "event": ev, "why": r["violated"] or "no spec action matches"})
-                    accepted += k
-                    remaining = remaining[k + 1:]
-                    break
-                n += len(t)
-            else:
-                raise Inconclusive("conformance failure could not be located")
-            continue
-        if r["error"] or r["timeout"]:
-            raise Inconclusive("conformance run failed: " + (r["error"] or r["out"][-1500:]))
-        accepted += len(remaining)
-        remaining = []
+def chunks_of(traces, max_events=350):
+    out, cur, n = [], [], 0
+    for t in traces:
+        if cur and n + len(t) > max_events:
+            out.append(cur)
+            cur, n = [], 0
+        cur.append(t)
+        n += len(t)
+    if cur:
+        out.append(cur)
+    return out
+
+
+def conformance(ctx, traces, budget=None, par=12):
+    """Trace validation against Transport.tla (TransportTrace.tla). The journals are validated in chunks by
+    several TLC processes (one worker each: the high-water mark of the trace spec is per process)."""
+    from concurrent.futures import ThreadPoolExecutor
+    budget = budget or (75 if ctx.tier == "quick" else 900)
+    ctx.specdir(ENGINE)
+    chunks = chunks_of([t for t in traces if not t[0].get("died")])
+
+    def one(k):
+        remaining = list(chunks[k])
+        accepted, divs, states, timed = 0, [], 0, 0
+        rounds = 0
+        while remaining and rounds < 6:
+            rounds += 1
+            tf = os.path.join(ctx.work, "tconf-%s-%d.ndjson" % (ctx.prop, k))
+            write_ndjson(tf, [e for t in remaining for e in t])
+            r = ctx.tlc(ENGINE, "TransportTrace", "TransportTrace.cfg", workers=1, timeout=budget, env={"TRACE": tf}, tag="conf-%s-%d-%d" % (ctx.prop, k, rounds))
+            states += r["distinct"]
+            if r["timeout"]:
+                timed += len(remaining)
+                break
+            if r["postcondition_failed"] or r["violated"]:
+                m = re.search(r'"DIVERGED_AT_LINE",\s*(\d+)', r["out"])
+                if not m:
+                    raise Inconclusive("conformance failure could not be located: " + r["out"][-1500:])
+                line = int(m.group(1))
+                n = 0
+                for j, t in enumerate(remaining):
+                    if line <= n + len(t):
+                        ev = t[line - n - 1] if 0 < line - n <= len(t) else {}
+                        ev = {a: b for a, b in ev.items() if a not in ("vtab", "crange", "ops", "alive", "topics", "ranges")}
+                        divs.append({"trace": t[0].get("id"), "line": line - n, "event": ev})
+                        accepted += j
+                        remaining = remaining[j + 1:]
+                        break
+                    n += len(t)
+                else:
+                    raise Inconclusive("conformance failure could not be located")
+                continue
+            if r["error"]:
+                raise Inconclusive("conformance run failed: " + r["error"][-1500:])
+            accepted += len(remaining)
+            remaining = []
+        return accepted, divs, states, timed
+
+    with ThreadPoolExecutor(max_workers=par) as ex:
+        res = list(ex.map(one, range(len(chunks))))
+    accepted = sum(x[0] for x in res)
+    divs = [d for x in res for d in x[1]]
+    states = sum(x[2] for x in res)
+    timed = sum(x[3] for x in res)
+    if timed:
+        ctx.notes.append("%d journal(s) were not validated against Transport.tla within the time budget" % timed)
     return accepted, divs, states
 
 
-def write_mc_cfg(d, name, reqs, menu, conns, moves, cancels, cuts, refresh, expire, closeidle, vtab, bug="none", live=False):
+def write_mc_cfg(d, name, reqs, menu, conns, moves, cancels, cuts, refresh, expire, closeidle, vtab, kinds="leader add remove topic coord txn ctrlr", bug="none", live=False):
     with open(os.path.join(d, name), "w") as f:
         f.write("SPECIFICATION %s\nCONSTANTS\n Brokers <- MC_Brokers\n Boot <- MC_Boot\n Topics <- MC_Topics\n NParts = 2\n Cluster0 <- MC_Cluster0\n" % ("FairSpec" if live else "Spec"))
         f.write(" VTab <- %s\n CRange <- MC_CRange\n Reqs <- %s\n Menu <- %s\n MaxConns = %d\n MaxMoves = %d\n MaxCancels = %d\n MaxCuts = %d\n" % (vtab, reqs, menu, conns, moves, cancels, cuts))
         f.write(" MaxRefresh = %d\n MaxExpire = %d\n MaxCloseIdle = %d\n Hist = %s\n Bug = \"%s\"\n" % (refresh, expire, closeidle, "FALSE" if live else "TRUE", bug))
+        f.write(" AnyConnId = FALSE\n")
+        f.write(" MoveKinds = {%s}\n" % ", ".join('"%s"' % k for k in kinds.split()))
         if live:
             f.write("PROPERTIES C12_RefreshWithinTTL\n")
         else:
@@ -419,58 +487,66 @@ def write_mc_cfg(d, name, reqs, menu, conns, moves, cancels, cuts, refresh, expi
         f.write("CHECK_DEADLOCK FALSE\n")
 
 
-# name -> (reqs, menu, conns, moves, cancels, cuts, refresh, expire, closeidle, vtab)
+# name -> (reqs, menu, conns, moves, cancels, cuts, refresh, expire, closeidle, vtab, kinds of cluster changes)
+ALLK = "leader add remove topic coord txn ctrlr"
 MC_QUICK = {
-    "route": ("MC_Reqs2", "MC_MenuQ1", 4, 1, 0, 0, 1, 0, 0, "MC_VTabA"),
-    "fault": ("MC_Reqs2", "MC_MenuQ2", 4, 0, 1, 1, 1, 1, 0, "MC_VTabB"),
-    "create": ("MC_Reqs2", "MC_MenuQ3", 4, 0, 0, 0, 1, 0, 1, "MC_VTabA"),
+    "one": ("MC_Reqs1", "MC_Menu1", 3, 1, 0, 0, 1, 0, 0, "MC_VTabA", ALLK),
+    "route": ("MC_Reqs2", "MC_MenuQ1", 3, 1, 0, 0, 1, 0, 0, "MC_VTabA", "leader"),
+    "fault": ("MC_Reqs2", "MC_MenuQ2", 4, 0, 1, 1, 0, 1, 0, "MC_VTabB", ALLK),
+    "create": ("MC_Reqs2", "MC_MenuQ3", 4, 0, 0, 0, 1, 0, 0, "MC_VTabA", ALLK),
+    "closeidle": ("MC_Reqs2", "MC_MenuQ3", 4, 0, 0, 0, 0, 0, 1, "MC_VTabA", ALLK),
 }
 MC_THOROUGH = {
-    "route": ("MC_Reqs2", "MC_Menu2", 4, 1, 0, 0, 1, 0, 0, "MC_VTabA"),
-    "fault": ("MC_Reqs2", "MC_MenuQ2", 4, 1, 1, 1, 1, 1, 0, "MC_VTabB"),
-    "create": ("MC_Reqs2", "MC_MenuQ3", 4, 1, 0, 0, 1, 0, 1, "MC_VTabA"),
-    "three": ("MC_Reqs3", "MC_Menu3", 5, 0, 0, 0, 0, 0, 0, "MC_VTabA"),
+    "one": ("MC_Reqs1", "MC_Menu1", 3, 2, 1, 1, 1, 0, 0, "MC_VTabB", ALLK),
+    "route": ("MC_Reqs2", "MC_MenuQ1", 3, 1, 0, 0, 1, 0, 0, "MC_VTabA", ALLK),
+    "fault": ("MC_Reqs2", "MC_MenuQ2", 4, 1, 1, 1, 0, 1, 0, "MC_VTabB", "leader coord"),
+    "create": ("MC_Reqs2", "MC_MenuQ3", 4, 1, 0, 0, 1, 0, 0, "MC_VTabA", "ctrlr topic add"),
+    "closeidle": ("MC_Reqs2", "MC_MenuQ3", 4, 0, 0, 0, 1, 0, 1, "MC_VTabA", ALLK),
 }
 
 
-def model_check(ctx, which=None):
+def model_check(ctx, guard_names):
+    """model checking of Transport.tla in several small configurations, and the vacuity guards: each seeded
+    defect of the model must be rejected by an invariant that is about it. The runs are independent: in parallel."""
+    from concurrent.futures import ThreadPoolExecutor
     d = ctx.specdir(ENGINE)
     table = MC_QUICK if ctx.tier == "quick" else MC_THOROUGH
-    cov = {"states": 0, "transitions": 0, "mc_configs": {}}
+    jobs = []
     for name, args in table.items():
-        if which and name not in which:
-            continue
         cfg = "MCgen_%s.cfg" % name
         write_mc_cfg(d, cfg, *args)
-        r = ctx.tlc(ENGINE, "MCTransport", cfg, workers=16, timeout=1500)
-        if r["violated"] or r["error"] or r["timeout"]:
-            raise Inconclusive("model checking of Transport.tla (%s) did not pass: %s" % (name, r["out"][-2000:]))
-        cov["states"] += r["distinct"]
-        cov["transitions"] += r["generated"]
-        cov["mc_configs"][name] = {"distinct": r["distinct"], "generated": r["generated"], "depth": r["depth"], "wall_s": round(r["wall"], 1)}
-        ctx.log("Transport MC %s ok: %d distinct states, %.0f s" % (name, r["distinct"], r["wall"]))
-    return cov
-
-
-def guards(ctx, names):
-    """vacuity guards: each seeded defect of the model must be rejected by the invariant that is about it"""
-    d = ctx.specdir(ENGINE)
-    done = {}
-    for bug in names:
+        jobs.append(("mc", name, cfg))
+    for bug in guard_names:
         base, expect = GUARDS[bug]
-        args = list(MC_QUICK[base])
         cfg = "MCguard_%s.cfg" % bug
-        write_mc_cfg(d, cfg, *args, bug=bug)
-        r = ctx.tlc(ENGINE, "MCTransport", cfg, workers=8, timeout=600)
-        if r["violated"] not in expect:
-            raise Inconclusive("vacuity guard failed: the model with defect %s was not rejected (%s)" % (bug, r["violated"] or r["out"][-600:]))
-        done[bug] = r["violated"]
-    return done
+        write_mc_cfg(d, cfg, *MC_QUICK[base], bug=bug)
+        jobs.append(("guard", bug, cfg))
+
+    def one(job):
+        kind, name, cfg = job
+        return job, ctx.tlc(ENGINE, "MCTransport", cfg, workers=6 if kind == "mc" else 3, timeout=1500 if ctx.tier == "quick" else 3000, tag="%s-%s" % (kind, name))
+
+    with ThreadPoolExecutor(max_workers=len(jobs)) as ex:
+        res = list(ex.map(one, jobs))
+    cov = {"states": 0, "transitions": 0, "mc_configs": {}, "vacuity_guards": {}}
+    for (kind, name, cfg), r in res:
+        if kind == "mc":
+            if r["violated"] or r["error"] or r["timeout"]:
+                raise Inconclusive("model checking of Transport.tla (%s) did not pass: %s" % (name, r["out"][-2000:]))
+            cov["states"] += r["distinct"]
+            cov["transitions"] += r["generated"]
+            cov["mc_configs"][name] = {"distinct": r["distinct"], "generated": r["generated"], "depth": r["depth"], "wall_s": round(r["wall"], 1)}
+        else:
+            if r["violated"] not in GUARDS[name][1]:
+                raise Inconclusive("vacuity guard failed: the model with defect %s was not rejected (%s)" % (name, r["violated"] or r["out"][-600:]))
+            cov["vacuity_guards"][name] = r["violated"]
+    ctx.log("Transport MC ok: %s" % json.dumps(cov["mc_configs"]))
+    return cov
 
 
 def liveness(ctx):
     d = ctx.specdir(ENGINE)
-    write_mc_cfg(d, "LIVE_refresh.cfg", "MC_Reqs0", "MC_Menu0", 2, 2, 0, 1, 1, 1, 0, "MC_VTabA", live=True)
+    write_mc_cfg(d, "LIVE_refresh.cfg", "MC_Reqs0", "MC_Menu0", 2, 2, 0, 1, 1, 1, 0, "MC_VTabA", ALLK, live=True)
     r = ctx.tlc(ENGINE, "MCTransport", "LIVE_refresh.cfg", workers=8, timeout=900)
     if r["violated"] or r["error"] or r["timeout"]:
         raise Inconclusive("liveness check C12_RefreshWithinTTL of Transport.tla did not pass: " + r["out"][-2000:])
@@ -500,9 +576,12 @@ def sample(scripts, traces):
 
 def run(ctx):
     cov = {"engine": "transport"}
-    cov.update(model_check(ctx))
-    cov["vacuity_guards"] = guards(ctx, ["firstBroker", "clientMax", "staleCache", "filterAll", "groupToController"] if ctx.tier == "quick" else list(GUARDS))
-    if ctx.tier == "thorough":
+    if os.environ.get("VERIF_TRANSPORT_NOMC"):      # development aid (seeded-bug experiments): journals only
+        ctx.notes.append("model checking skipped (VERIF_TRANSPORT_NOMC)")
+        cov.update({"states": 0, "transitions": 0})
+    else:
+        cov.update(model_check(ctx, ["firstBroker", "clientMax", "staleCache", "filterAll", "groupToController"] if ctx.tier == "quick" else list(GUARDS)))
+    if ctx.tier == "thorough" and not os.environ.get("VERIF_TRANSPORT_NOMC"):
         cov.update(liveness(ctx))
     scripts = c12_scripts(ctx.seed, ctx.tier)
     traces = run_scripts(ctx, scripts, "c12")
